@@ -5,6 +5,9 @@ import Krp.Props.C08
 import Krp.Lemmas.Arith
 import Krp.Init
 import Krp.Lemmas.Reach
+import Krp.Lemmas.Funded
+import Krp.Lemmas.NoWd
+import Krp.Props.C02
 namespace Krp
 open HubSt
 
@@ -190,5 +193,297 @@ theorem C01_withdraw_tx_pays (s : Sys) (u : Addr) (h' : HubSt) (ms : List Msg)
     have : ¬ hubA = u := fun h => hu h.symm
     simp only [Sys.setBank, upd, hch, this, if_false, if_true]
     rw [hbal]
+
+
+/-! ### Release groups, and the funding of released claims in every state
+
+  `owed h` (Lemmas/Funded.lean) = Σ over all users' wait entries of released batches, each valued
+  at its batch's final withdraw rates = the sum of all matured (released) claims.  `Funded h` says
+  it is covered by `prev_hub_balance`, which `C02_reserved` shows is covered by the hub's liquid
+  balance.  The one operation that can break it is a release that allocates more than arrived;
+  `C01_release_side_alloc_le_arrived_partial` proves it cannot for an unslashed side and for a side
+  slashed by `sl` with `batches · sl ≤ 10^18`; outside that the bound is false
+  (`C01_release_group_counterexample`, known finding D5), which is why the statements below carry
+  `GroupSafe` for the releases of a history. -/
+
+/-- **Batches released together, one token side: the allocation never exceeds what arrived for the
+    side** — whatever the number of batches, their sizes and rates — when the side lost nothing
+    (`T ≤ A`: no slashing of the unbonding stake; unsolicited transfers allowed), and when it lost
+    `sl = T − A` with `batches · sl ≤ 10^18`.  PARTIAL: without that side condition the statement
+    is false (D5). `xs` = (amount, rate) per batch; `T = sideTotal xs`. -/
+theorem C01_release_side_alloc_le_arrived_partial (xs : List (Nat × Nat)) (A : Nat)
+    (hs : sideTotal xs ≤ A ∨ xs.length * (sideTotal xs - A) ≤ D) :
+    sideAlloc xs (sideTotal xs) (signedSub (sideTotal xs) A) ≤ A :=
+  side_alloc_le xs A hs
+
+/-- non-vacuity: three batches, a 10 % slash of the unbonding stake — inside the side condition -/
+example : SideSafe 3 (sideTotal [(1000, D), (2000, D), (3000, D)]) 5400 := by
+  right; decide
+
+/-- **A release raises the sum of released claims by at most the coins that arrived** (the
+    difference between the hub's balance and `prev_hub_balance`), for a group that meets the side
+    condition; so the total paid for batches released together never exceeds the arrivals. -/
+theorem C01_release_owed_le_arrived (h h1 : HubSt) (cutoff bal : Nat) (inv : ClaimInv h)
+    (hs : h.GroupSafe cutoff bal) (hx : h.processWithdrawRate cutoff bal = .ok h1) :
+    h1.owed ≤ h.owed + (bal - h.prevHubBalance) :=
+  release_owed_le h h1 cutoff bal hx (fun i x hxi => (inv.closed i x hxi).2) hs
+
+/-- WithdrawUnbonded keeps the released claims funded: afterwards what is still owed is covered by
+    the new `prev_hub_balance` (= balance − payout). -/
+theorem C01_withdraw_keeps_funded (h h' : HubSt) (e : HubEnv) (sender : Addr) (ms : List Msg)
+    (inv : ClaimInv h) (hF : h.Funded) (hP : h.prevHubBalance ≤ e.hubBalance)
+    (hs : h.GroupSafe (e.now - h.unbonding) e.hubBalance)
+    (hx : h.withdraw e sender = .ok (h', ms)) : h'.Funded := by
+  obtain ⟨_, h1, hp, _, hle, hh, _⟩ := withdraw_spec h h' e sender ms hx
+  have rel := C01_release_owed_le_arrived h h1 _ _ inv hs hp
+  have inv1 := C07_release_keeps_claims h h1 _ _ inv hp
+  have hnd : (h1.finished sender).2.Nodup := by
+    unfold finished userBatches
+    exact nodup_filter _ _ (nodup_filter _ _ List.nodup_range)
+  have hrel : ∀ i ∈ (h1.finished sender).2, ∃ x, h1.hist i = some x ∧ x.released = true := by
+    intro i hi
+    simp only [finished, List.mem_filter] at hi
+    cases hxi : h1.hist i with
+    | none => simp [hxi] at hi
+    | some x => simp [hxi] at hi; exact ⟨x, rfl, hi.2⟩
+  have pay := owed_delWait_fold sender (h1.finished sender).2 h1 inv1.wf hnd hrel
+  have hfin : (h1.finished sender).1 =
+      (((h1.finished sender).2).map (fun i => entryValue (h1.histOr i) (h1.waitB sender i) (h1.waitS sender i))).sum := rfl
+  subst hh
+  unfold Funded at hF ⊢
+  show ((h1.finished sender).2.foldl (fun hh i => hh.delWait sender i) h1).owed ≤ e.hubBalance - (h1.finished sender).1
+  have e1 : ({ ((h1.finished sender).2.foldl (fun hh i => hh.delWait sender i) h1) with
+      prevHubBalance := e.hubBalance - (h1.finished sender).1 } : HubSt).owed =
+      ((h1.finished sender).2.foldl (fun hh i => hh.delWait sender i) h1).owed := rfl
+  omega
+
+/-- **A matured claim worth at least one base unit can always be withdrawn.** In a state whose
+    released claims are funded and whose `prev_hub_balance` is in the hub's account, for a release
+    that meets the side condition: WithdrawUnbonded by a claimant whose released entries are worth
+    ≥ 1 is accepted by the handler (`C01_withdraw_tx_pays`: and then paid as a whole transaction). -/
+theorem C01_withdraw_succeeds (h h1 : HubSt) (e : HubEnv) (sender : Addr)
+    (inv : ClaimInv h) (hF : h.Funded) (hP : h.prevHubBalance ≤ e.hubBalance)
+    (hs : h.GroupSafe (e.now - h.unbonding) e.hubBalance) (hnow : h.unbonding ≤ e.now)
+    (hp : h.processWithdrawRate (e.now - h.unbonding) e.hubBalance = .ok h1)
+    (hpos : 1 ≤ (h1.finished sender).1) :
+    ∃ h' ms, h.withdraw e sender = .ok (h', ms) := by
+  have rel := C01_release_owed_le_arrived h h1 _ _ inv hs hp
+  have inv1 := C07_release_keeps_claims h h1 _ _ inv hp
+  have hnd : (h1.finished sender).2.Nodup := by
+    unfold finished userBatches
+    exact nodup_filter _ _ (nodup_filter _ _ List.nodup_range)
+  have hrel : ∀ i ∈ (h1.finished sender).2, ∃ x, h1.hist i = some x ∧ x.released = true := by
+    intro i hi
+    simp only [finished, List.mem_filter] at hi
+    cases hxi : h1.hist i with
+    | none => simp [hxi] at hi
+    | some x => simp [hxi] at hi; exact ⟨x, rfl, hi.2⟩
+  have pay := owed_delWait_fold sender (h1.finished sender).2 h1 inv1.wf hnd hrel
+  have hfin : (h1.finished sender).1 =
+      (((h1.finished sender).2).map (fun i => entryValue (h1.histOr i) (h1.waitB sender i) (h1.waitS sender i))).sum := rfl
+  unfold Funded at hF
+  have hle : (h1.finished sender).1 ≤ e.hubBalance := by omega
+  unfold withdraw
+  rw [if_neg (by omega), hp]
+  simp only []
+  rw [if_neg (by omega), if_neg (by omega)]
+  exact ⟨_, _, rfl⟩
+
+/-! #### every other hub message leaves `prev_hub_balance` and the released claims alone -/
+
+private theorem prev_of_books {h st : HubSt} {e : HubEnv} (hx : h.actualState e = .ok st) :
+    st.prevHubBalance = h.prevHubBalance := (actualState_spec h st e hx).1.prev
+
+private theorem owed_of_keeps {h h' : HubSt} (k : KeepsClaims h h') : h'.owed = h.owed :=
+  owed_congr h h' k.same.keys k.same.waitB k.same.waitS k.same.hist
+
+/-- recording an unbond request in the open batch does not change what is owed for released batches -/
+private theorem owed_addWait (st : HubSt) (inv : ClaimInv st) (u : Addr) (x y : Nat) :
+    (st.addWait u st.batchId x y).owed = st.owed := by
+  have a := addWait_claims st inv.wf u st.batchId x y
+  have hnone : st.hist st.batchId = none := by
+    cases hh : st.hist st.batchId with
+    | none => rfl
+    | some z => exact absurd (inv.histBound st.batchId (by rw [hh]; simp)) (Nat.lt_irrefl _)
+  unfold owed owedWith
+  show sumOn (addKey st.waitKeys (u, st.batchId)) (relValWith st.hist (st.addWait u st.batchId x y)) = _
+  have hother : ∀ k, k ≠ (u, st.batchId) →
+      relValWith st.hist (st.addWait u st.batchId x y) k = relValWith st.hist st k := by
+    intro k hk
+    have o := a.2.2.2.1 k.1 k.2 (by intro e; apply hk; cases k; simp at e ⊢; exact e)
+    unfold relValWith; rw [o.1, o.2]
+  have z1 : relValWith st.hist st (u, st.batchId) = 0 := by unfold relValWith; simp only [hnone]
+  have z2 : relValWith st.hist (st.addWait u st.batchId x y) (u, st.batchId) = 0 := by
+    unfold relValWith; simp only [hnone]
+  have := sumOn_addKey st.waitKeys (relValWith st.hist st) (relValWith st.hist (st.addWait u st.batchId x y))
+    (u, st.batchId) hother inv.wf.nodup (fun _ => z1)
+  omega
+
+/-- closing the open batch (an undelegation) writes an unreleased entry: nothing more is owed -/
+private theorem owed_processUndelegations (h h' : HubSt) (e : HubEnv) (ms : List Msg) (inv : ClaimInv h)
+    (hx : h.processUndelegations e = .ok (h', ms)) :
+    h'.owed = h.owed ∧ h'.prevHubBalance = h.prevHubBalance := by
+  have hnone : h.hist h.batchId = none := by
+    cases hh : h.hist h.batchId with
+    | none => rfl
+    | some z => exact absurd (inv.histBound h.batchId (by rw [hh]; simp)) (Nat.lt_irrefl _)
+  unfold processUndelegations at hx
+  exc_split at hx
+  refine ⟨?_, rfl⟩
+  unfold owed owedWith
+  apply sumOn_congr
+  intro k _
+  unfold relValWith
+  by_cases hk : k.2 = h.batchId
+  · simp only [hk, upd_same, hnone, Bool.false_eq_true, if_false]
+  · simp only [upd_other _ _ _ _ hk]
+
+/-- **Every hub message other than WithdrawUnbonded** leaves `prev_hub_balance` and the sum of
+    released claims exactly as they were. -/
+theorem C01_other_messages_keep_reserve (h h' : HubSt) (e : HubEnv) (sender : Addr)
+    (funds : List (Denom × Nat)) (m : HubMsg) (ms : List Msg) (inv : ClaimInv h) (hl : h.legacy = [])
+    (hm : m ≠ .withdrawUnbonded) (hx : hubExec h e sender funds m = .ok (h', ms)) :
+    h'.prevHubBalance = h.prevHubBalance ∧ h'.owed = h.owed := by
+  have keepB : ∀ {st x : HubSt}, h.actualState e = .ok st → x.prevHubBalance = st.prevHubBalance →
+      KeepsClaims h x → x.prevHubBalance = h.prevHubBalance ∧ x.owed = h.owed :=
+    fun hst hp k => ⟨hp.trans (prev_of_books hst), owed_of_keeps k⟩
+  cases m with
+  | withdrawUnbonded => exact absurd rfl hm
+  | migrateWaitList limit =>
+    simp only [hubExec] at hx
+    split at hx
+    · injection hx with hx; injection hx with h1 _; subst h1
+      have : h.migrate limit = h := by simp [migrate, hl]
+      rw [this]; exact ⟨rfl, rfl⟩
+    · cases hx
+  | updateParams a b c d p r =>
+    simp only [hubExec] at hx
+    exc_norm at hx
+    split at hx
+    · cases hx
+    · rename_i h1 hp
+      injection hx with hx; injection hx with e1 _; subst e1
+      refine ⟨?_, owed_of_keeps (updateParams_keeps _ _ _ _ _ _ _ _ _ hp)⟩
+      unfold updateParams at hp; exc_norm at hp; exc_split at hp
+      all_goals rfl
+  | receive user amt hook =>
+    simp only [hubExec] at hx
+    split at hx
+    · cases hx
+    · exc_norm at hx
+      split at hx
+      · cases hx
+      · split at hx
+        · cases hx
+        · cases hook with
+          | other => simp only [] at hx; cases hx
+          | convert =>
+            simp only [] at hx
+            split at hx
+            · obtain ⟨st, _, _, _, _, _, hst, _, _, _, _, _, _, _, _, hh, _⟩ := convertBS_spec _ _ _ _ _ _ hx
+              exact keepB hst (by rw [hh]) (convertBS_keeps _ _ _ _ _ _ hx)
+            · split at hx
+              · obtain ⟨st, _, _, _, _, _, hst, _, _, _, _, _, _, _, _, hh, _⟩ := convertSB_spec _ _ _ _ _ _ hx
+                exact keepB hst (by rw [hh]) (convertSB_keeps _ _ _ _ _ _ hx)
+              · cases hx
+          | unbond =>
+            simp only [] at hx
+            split at hx
+            · obtain ⟨st, supply, wf, tok, hst, _, _, _, _, _, hcase⟩ := unbondB_spec _ _ _ _ _ _ hx
+              have k := actualState_keeps h st e hst
+              have inv1 : ClaimInv st := ClaimInv.of_same k.same inv
+              have c := C07_unbond_bsei_credits_sender_only st inv1 user supply amt wf
+              have o1 : (st.afterUnbondB user supply amt wf).owed = h.owed := by
+                have : (st.afterUnbondB user supply amt wf).owed = (st.addWait user st.batchId wf 0).owed :=
+                  owed_congr _ _ rfl rfl rfl rfl
+                rw [this, owed_addWait st inv1, owed_of_keeps k]
+              have p1 : (st.afterUnbondB user supply amt wf).prevHubBalance = h.prevHubBalance := by
+                show st.prevHubBalance = _; exact prev_of_books hst
+              rcases hcase with ⟨_, um, hp, _⟩ | ⟨_, hh, _⟩
+              · have r := owed_processUndelegations _ _ _ _ c.1 hp
+                exact ⟨r.2.trans p1, r.1.trans o1⟩
+              · subst hh; exact ⟨p1, o1⟩
+            · split at hx
+              · obtain ⟨st, tok, hst, _, _, hcase⟩ := unbondS_spec _ _ _ _ _ _ hx
+                have k := actualState_keeps h st e hst
+                have inv1 : ClaimInv st := ClaimInv.of_same k.same inv
+                have c := C07_unbond_stsei_credits_sender_only st inv1 user amt
+                have o1 : (st.afterUnbondS user amt).owed = h.owed := by
+                  have : (st.afterUnbondS user amt).owed = (st.addWait user st.batchId 0 amt).owed :=
+                    owed_congr _ _ rfl rfl rfl rfl
+                  rw [this, owed_addWait st inv1, owed_of_keeps k]
+                have p1 : (st.afterUnbondS user amt).prevHubBalance = h.prevHubBalance := by
+                  show st.prevHubBalance = _; exact prev_of_books hst
+                rcases hcase with ⟨_, um, hp, _⟩ | ⟨_, hh, _⟩
+                · have r := owed_processUndelegations _ _ _ _ c.1 hp
+                  exact ⟨r.2.trans p1, r.1.trans o1⟩
+                · subst hh; exact ⟨p1, o1⟩
+              · cases hx
+  | bond =>
+    simp only [hubExec] at hx; split at hx; · cases hx
+    · obtain ⟨p, st, mint, dl, tok, _, hst, _, _, _, _, hh, _⟩ := bondB_spec _ _ _ _ _ _ hx
+      exact keepB hst (by rw [hh]) (bondB_keeps _ _ _ _ _ _ hx)
+  | bondForStSei =>
+    simp only [hubExec] at hx; split at hx; · cases hx
+    · obtain ⟨p, st, dl, tok, _, hst, _, _, _, hh, _⟩ := bondS_spec _ _ _ _ _ _ hx
+      exact keepB hst (by rw [hh]) (bondS_keeps _ _ _ _ _ _ hx)
+  | bondRewards =>
+    simp only [hubExec] at hx; split at hx; · cases hx
+    · obtain ⟨p, st, _, _, hst, _, hh⟩ := bondR_spec _ _ _ _ _ _ hx
+      exact keepB hst (by rw [hh]) (bondR_keeps _ _ _ _ _ _ hx)
+  | updateGlobalIndex =>
+    simp only [hubExec] at hx; split at hx; · cases hx
+    · refine ⟨?_, owed_of_keeps (updateGlobal_keeps _ _ _ _ _ hx)⟩
+      unfold updateGlobal at hx; exc_norm at hx; exc_split at hx
+      all_goals rfl
+  | checkSlashing =>
+    simp only [hubExec] at hx
+    split at hx
+    · cases hx
+    · exc_norm at hx
+      split at hx
+      · cases hx
+      · rename_i st hst
+        injection hx with hx; injection hx with e1 _; subst e1
+        exact ⟨prev_of_books hst, owed_of_keeps (actualState_keeps _ _ _ hst)⟩
+  | updateConfig a b c d f g u =>
+    simp only [hubExec] at hx; split at hx; · cases hx
+    · refine ⟨?_, owed_of_keeps (updateConfig_keeps _ _ _ _ _ _ _ _ _ _ _ _ hx)⟩
+      unfold updateConfig at hx; exc_norm at hx; exc_split at hx
+      all_goals rfl
+  | setOwner a =>
+    simp only [hubExec] at hx; exc_norm at hx; exc_split at hx
+    exact ⟨rfl, rfl⟩
+  | acceptOwnership =>
+    simp only [hubExec] at hx; exc_norm at hx; exc_split at hx
+    exact ⟨rfl, rfl⟩
+  | swapHook =>
+    simp only [hubExec] at hx; exc_norm at hx; exc_split at hx
+    exact ⟨rfl, rfl⟩
+  | claimAirdrop =>
+    simp only [hubExec] at hx; exc_norm at hx; exc_split at hx
+    exact ⟨rfl, rfl⟩
+  | redelegateProxy src plan =>
+    simp only [hubExec] at hx; exc_norm at hx; exc_split at hx
+    exact ⟨rfl, rfl⟩
+
+/-- **Every hub message keeps the released claims funded.** Whatever message the hub accepts, from
+    whomever: if the sum of released, unpaid claims was covered by `prev_hub_balance` it still is —
+    for WithdrawUnbonded provided `prev_hub_balance` is in the hub's account (`C02_reserved`) and the
+    release it performs meets the side condition. -/
+theorem C01_funded_hub_step (h h' : HubSt) (e : HubEnv) (sender : Addr) (funds : List (Denom × Nat))
+    (m : HubMsg) (ms : List Msg) (inv : ClaimInv h) (hl : h.legacy = []) (hF : h.Funded)
+    (hP : h.prevHubBalance ≤ e.hubBalance)
+    (hs : m = .withdrawUnbonded → h.GroupSafe (e.now - h.unbonding) e.hubBalance)
+    (hx : hubExec h e sender funds m = .ok (h', ms)) : h'.Funded := by
+  by_cases hm : m = .withdrawUnbonded
+  · subst hm
+    simp only [hubExec] at hx
+    split at hx
+    · cases hx
+    · exact C01_withdraw_keeps_funded h h' e sender ms inv hF hP (hs rfl) hx
+  · have r := C01_other_messages_keep_reserve h h' e sender funds m ms inv hl hm hx
+    unfold Funded at hF ⊢
+    rw [r.1, r.2]; exact hF
 
 end Krp
